@@ -20,6 +20,22 @@ func PropC11(c *vs.Case, f Factory) error {
 	if err != nil {
 		return fmt.Errorf("harness: %v", err)
 	}
+	if pd := env.W.Sim.Def(scn.Cfg.ParentResource); pd != nil && pd.HasStatus && c.Prob(1, 5) {
+		// the parent's CRD gained its status subresource only after this process had looked the resource up
+		// once (for another controller, say); discovery has been refreshed since, and the controller is built
+		// afterwards: it must use the status endpoint, like every controller built after that refresh
+		env.W.Sim.SetHasStatus(scn.Cfg.ParentResource, false)
+		if err := env.Restart(); err != nil { // the process starts (and builds a first controller instance) in those days
+			return fmt.Errorf("harness: %v", err)
+		}
+		_, _ = env.W.DynClient.Resource(pd.APIVersion(), scn.Cfg.ParentResource)
+		env.W.Sim.SetHasStatus(scn.Cfg.ParentResource, true)
+		env.W.Resources.VerifRefresh()
+		if err := env.Rebuild(); err != nil {
+			return fmt.Errorf("harness: %v", err)
+		}
+		c.Class("status-subresource-appeared-after-first-lookup")
+	}
 	// a parent with labels/annotations/owner data that must survive status writes
 	env.W.Sim.ExtUpdate(scn.Cfg.ParentResource, scn.ParentNS(), scn.ParentName(), func(o map[string]any) {
 		m := metaOfMap(o)
